@@ -569,6 +569,21 @@ pub fn c11(tier: Tier) -> ! {
                 }
             }
         }
+        // three general sites of p2gg: twelve molecules in the cell
+        {
+            let wg = get_wallpaper_group(wallpaper_enum("p2gg")).unwrap();
+            let site = WyckoffSite::new(&wg).unwrap();
+            let hard = PackedState::initialise(LineShape::polygon(3).unwrap(), Wallpaper::new(&wg), &[site.clone(), site.clone(), site.clone()]);
+            let lj = PotentialState::initialise(LJShape2::circle(), Wallpaper::new(&wg), &[site.clone(), site.clone(), site.clone()]);
+            for st in vec![AnyState::Poly(hard), AnyState::Lj(lj)] {
+                let nb = st.basis_values().len();
+                let vals = [0.3125, -0.1875, 1.25, -0.4375, 0.0625, 2.75, 0.1, 0.35, 4.];
+                for k in 0..9.min(nb) {
+                    st.set_basis_value(nb - 1 - k, vals[k]);
+                }
+                multi.push(("p2gg three sites (12 copies)".to_string(), st));
+            }
+        }
         // groups the crate does not ship, handed over as operation strings (their lattice
         // operations are not orthogonal matrices): hexagonal p3 and p3m1, square p4
         for (name, fam, ops) in [
@@ -594,6 +609,9 @@ pub fn c11(tier: Tier) -> ! {
         for (label, st) in multi.iter() {
             n_multi += 1;
             let case = json!({"engine": "document", "label": label, "state": st.to_json()});
+            if let Some(w) = svg_judge(st) {
+                run.fail(None, &format!("{}: the SVG does not show the structure: {}", label, w), case.clone());
+            }
             let text = st.to_string();
             let parsed: Result<Value, _> = serde_json::from_str(&text);
             let back = parsed.ok().and_then(|v| AnyState::from_json_as(st, &v).ok());
